@@ -9,9 +9,9 @@ import (
 
 func init() {
 	register(&propInfo{
-		ID:     "C11",
-		Run:    runC11,
-		MinObl: 11,
+		ID:          "C11",
+		Run:         runC11,
+		MinObl:      11,
 		Explanation: "Decided: R1 matcher shape — MatchRedirectURIWithClientRedirectURIs returns a non-nil URL only if (raw==\"\" ∧ exactly one registered URI ∧ it parses ∧ IsValidRedirectURI) or (raw≠\"\" ∧ some registered URI b with b == raw (string equality) or the loopback rule: scheme==http ∧ IsLoopback(ParseIP(host)) ∧ host, path and raw query equal to b's ∧ both parse) ∧ the result parses ∧ IsValidRedirectURI; the returned URL is the parse of raw / of the single registered URI; R2 IsValidRedirectURI is true only with IsRequestURL(String(u)) ∧ Fragment==\"\"; R3 in WriteAuthorizeError every redirect emission (Location header, form-post render) requires IsRedirectURIValid()==true, and IsRedirectURIValid is true only if the matcher accepts the request's own URI for its own client and IsValidRedirectURI holds; R4 the Location/form target in both writers is built only from String(GetRedirectURI(request)), url.Values.Encode() and constants; AuthorizeRequest.RedirectURI is written only from the matcher's result or a stored pushed request; R5 the code-flow authorize handler and the PAR handler store/issue only after the configured secure-transport checker accepted the redirect URI, and IsRedirectURISecure is false exactly for scheme http on a non-localhost host. NOT decided: URL-parser corner cases, look-alike hosts, what custom response-mode handlers do.",
 	})
 }
